@@ -140,7 +140,7 @@ def run(ctx) -> None:
                 rep.unrecognised("C02.R1", init, b.ast, f"cannot classify the initial value `{ast.unparse(b.ast.value)}` of self.{table}")
             else:
                 rep.hold("C02.R1", init, b.ast, f"self.{table} starts as {'a new empty table' if kind == 'fresh' else 'a copy of the parent table (snapshot)'}")
-        ok = icfg.all_paths_pass(icfg.entry, [icfg.exit], [b.id for b in binds], edge_ok=lambda s, d, lab: lab not in ("e", "h"))
+        ok = icfg.all_paths_pass(icfg.entry, [icfg.exit], [b.id for b in binds] + [b.id for b in helper_binds], edge_ok=lambda s, d, lab: lab not in ("e", "h"))
         rep.check("C02.R1", ok, init, binds[0].ast, f"self.{table} is bound on every path through the constructor", f"some path through the constructor leaves self.{table} unbound / shared")
         # copies come from the parent chosen at construction
         for b in binds:
